@@ -50,6 +50,56 @@ var foreignNames = []string{"", " ", "add", "ADD", "Add ", " Add", "Add\x00", "R
 	"ConstantOfshape", "Constant_", "com.microsoft.Gelu", "ai.onnx.Add", "Add:13", "Conv2D", "QLinearConv", "é", "Ａdd", "Softmax\n",
 	"Top%", "Foo%vBar", "%s", "%w", "Scale%dx", "%", "Relu%!", "Add%w"}
 
+// fpDense fingerprints dense tensors; other implementations (the sparse probes) are not read.
+func fpDense(t tensor.Tensor) mon.Fingerprint {
+	if _, ok := t.(*tensor.Dense); !ok {
+		return mon.Fingerprint{}
+	}
+	return mon.Fp(t)
+}
+
+// sparseProbe returns a 2x2 sparse (CSR) tensor of the element type, nil for types it is not built for.
+func sparseProbe(d tensor.Dtype) (t tensor.Tensor) {
+	defer func() {
+		if recover() != nil {
+			t = nil
+		}
+	}()
+	rows, cols := []int{0, 1}, []int{0, 1}
+	var data any
+	switch d {
+	case tensor.Float32:
+		data = []float32{1, 2}
+	case tensor.Float64:
+		data = []float64{1, 2}
+	case tensor.Int8:
+		data = []int8{1, 2}
+	case tensor.Int16:
+		data = []int16{1, 2}
+	case tensor.Int32:
+		data = []int32{1, 2}
+	case tensor.Int64:
+		data = []int64{1, 2}
+	case tensor.Uint8:
+		data = []uint8{1, 2}
+	case tensor.Uint16:
+		data = []uint16{1, 2}
+	case tensor.Uint32:
+		data = []uint32{1, 2}
+	case tensor.Uint64:
+		data = []uint64{1, 2}
+	case tensor.Bool:
+		data = []bool{true, true}
+	default:
+		return nil
+	}
+	cs := tensor.CSRFromCoord(tensor.Shape{2, 2}, rows, cols, data)
+	if cs == nil || cs.Dtype() != d {
+		return nil
+	}
+	return cs
+}
+
 // laterOnnxOps are the foreign names that ARE operators of ONNX opset 13: a library that
 // has grown since may implement them. Such a name may resolve - to an operator of its own
 // (a Go type none of the 55 known names resolves to), never to one of the known operators
@@ -297,6 +347,13 @@ func c15Gate(c *Ctx, gc gateCase) error {
 		case goNativeDtypes[5]:
 			in[i] = tensor.New(tensor.WithShape(2), tensor.WithBacking([]flag{true, false}))
 		default:
+			if sp := sparseProbe(d); i == gc.pos && !gc.empty && !gc.scalar && (c.Idx/4)%8 == 5 && sp != nil {
+				// the probe as one of gorgonia's sparse tensors: a tensor.Tensor that is not a
+				// *tensor.Dense is still a supplied input whose element type the gate checks
+				in[i] = sp
+				c.Count("gate:sparse-tensor-probes", 1)
+				break
+			}
 			rd, _ := mon.RefDtype(d)
 			shape := []int{2}
 			if gc.empty && i == gc.pos {
@@ -325,7 +382,7 @@ func c15Gate(c *Ctx, gc gateCase) error {
 	supplied := append([]tensor.Tensor{}, in...)
 	fps := make([]mon.Fingerprint, len(in))
 	for i, t := range in {
-		fps[i] = mon.Fp(t)
+		fps[i] = fpDense(t)
 	}
 	effMax := max
 	if variadic {
@@ -374,7 +431,7 @@ func c15Gate(c *Ctx, gc gateCase) error {
 		}
 	}
 	for i, t := range supplied {
-		if ok, what := fps[i].Equal(mon.Fp(t)); !ok {
+		if ok, what := fps[i].Equal(fpDense(t)); !ok {
 			c.Violation("gate:"+gc.op+":input-modified", "gate modified input %d: %s", i, what)
 		}
 	}
